@@ -6,6 +6,10 @@ state: one data dictionary (`Data`).  Ops
   {"op":"shift","name":s,"loc":s,"max":int|null}                                    → "ok" | {"err":k}
   {"op":"touch","name":s}     (create_variables registers empty dicts)              → "ok"
   {"op":"seq","ops":[set/get/shift ...]}  (equation-system wrapper: stop at first error) → {"outs":[...]}
+  {"op":"layout","blocks":[[name,size],..]}  blocks of `_variable_numbers` in global order; registers the names → "ok"
+  {"op":"es_set","sel":[names],"values":[q..],"ts":..,"it":..,"additive":bool}  set_variable_values → "ok" | {"err":k}
+  {"op":"es_get","sel":[names],"ts":..,"it":..}                                 get_variable_values → {"val":[q..]} | {"err":k}
+  {"op":"es_shift","sel":[names in argument order],"loc":s,"max":int|null}      shift_*_values      → "ok" | {"err":k}
   {"op":"dump"}               → [{"loc":s,"name":s,"entries":[[i,[q..]],..]},..]  (storage order; the harness sorts)
 -/
 import PorepyVerif.Common.Wire
@@ -26,6 +30,7 @@ def locToString : Loc → String
 def errToString : Err → String
   | .valueError => "ValueError"
   | .keyError => "KeyError"
+  | .assertionError => "AssertionError"
 
 def outToJson : Out → Json
   | .ok => Json.str "ok"
@@ -57,20 +62,57 @@ def dumpJson (d : Data) : Json :=
     obj [("loc", Json.str (locToString p.1.1)), ("name", Json.str p.1.2),
          ("entries", ofList (fun (e : Nat × Val) => Json.arr #[ofNat e.1, ofRats e.2]) p.2)]) d
 
-def stepD (d : Data) (j : Json) : R (Data × Json) := do
+def jBlock (j : Json) : R (String × Nat) :=
+  match j with
+  | .arr #[a, b] => do
+    let n ← jStr a
+    let k ← jNat b
+    pure (n, k)
+  | _ => throw s!"not a block: {j.compress}"
+
+abbrev St := Data × Layout
+
+def stepD (st : St) (j : Json) : R (St × Json) := do
+  let d := st.1
+  let lay := st.2
   let op ← fStr j "op"
   match op with
   | "touch" =>
     let name ← fStr j "name"
-    pure (touch d name, Json.str "ok")
+    pure ((touch d name, lay), Json.str "ok")
+  | "layout" =>
+    let bs ← (field j "blocks" >>= jList jBlock)
+    pure ((bs.foldl (fun acc b => touch acc b.1) d, bs), Json.str "ok")
+  | "es_set" =>
+    let sel ← (field j "sel" >>= jList jStr)
+    let v ← fRats j "values"
+    let ts ← fOptInt j "ts"
+    let it ← fOptInt j "it"
+    let a ← fBool j "additive"
+    let r := esSet lay d v sel ts it a
+    pure ((r.1, lay), outToJson r.2)
+  | "es_get" =>
+    let sel ← (field j "sel" >>= jList jStr)
+    let ts ← fOptInt j "ts"
+    let it ← fOptInt j "it"
+    pure (st, outToJson (esGet lay d sel ts it))
+  | "es_shift" =>
+    let sel ← (field j "sel" >>= jList jStr)
+    let loc ← fStr j "loc"
+    let m ← fOptInt j "max"
+    match locOfString loc with
+    | none => throw s!"es_shift: location {loc}"
+    | some l =>
+      let r := esShift d l m sel
+      pure ((r.1, lay), outToJson r.2)
   | "seq" =>
     let cs ← (field j "ops" >>= jList parseCmd)
     let r := cmdSeq d cs
-    pure (r.1, obj [("outs", ofList outToJson r.2)])
-  | "dump" => pure (d, dumpJson d)
+    pure ((r.1, lay), obj [("outs", ofList outToJson r.2)])
+  | "dump" => pure (st, dumpJson d)
   | _ =>
     let c ← parseCmd j
     let r := cmdStep d c
-    pure (r.1, outToJson r.2)
+    pure ((r.1, lay), outToJson r.2)
 
-def main : IO Unit := runDriver ([] : Data) stepD
+def main : IO Unit := runDriver (([], []) : St) stepD
